@@ -267,7 +267,7 @@ def run_cases(exe, cases, jobs=None, env=None, timeout=900):
     lines = [json.dumps(c, separators=(",", ":")) for c in cases]
     if not lines:
         return []
-    n = max(1, min(jobs, (len(lines) + 19) // 20))
+    n = max(1, min(jobs, (len(lines) + 9) // 10))
     chunks = [lines[i::n] for i in range(n)]
     with ThreadPoolExecutor(max_workers=n) as ex:
         outs = list(ex.map(lambda ch: _run_chunk(exe, ch, env=env, timeout=timeout), chunks))
